@@ -29,6 +29,14 @@
  *  D <q> <pats>                     crypto_dh_generate (priv = first queue entry)
  *      q = entropy queue: comma list of 64 hex digits or F (that call fails);
  *      pats = comma list of hex byte images to search for (computed by runner)
+ *  F G|C|D <args of that op>        fault enumeration of that DH operation:
+ *      warm-up (one clean run, one run with the 1st OpenSSL allocation
+ *      refused), a clean run that counts the N allocations OpenSSL makes, then
+ *      for every k = 1..N the operation again with the k-th OpenSSL allocation
+ *      refused (wa_ossl_fail_at), a second clean count; the free-time scan is
+ *      active throughout, the entropy queue is replayed in every run
+ *      -> R ret= ncalls= n=<N> n2= runs= fired= notreached= failret= absorbed=
+ *           absdiff= badret= fruns= fkfirst= fklast= + the usual scan fields
  *  W <content> <failat> <pats>      write key file, aws_readkeys (failat = k:
  *                                   the k-th allocation inside it fails; 0 = none)
  *      -> R key=value ... (see report())
@@ -36,9 +44,11 @@
  */
 #include "vh.h"
 
+#include <signal.h>
 #include <unistd.h>
 
 #include <openssl/bn.h>
+#include <openssl/err.h>
 
 #include "refaes.h"
 #include "wrapalloc.h"
@@ -86,7 +96,14 @@ static struct {
 	/* first hit */
 	int hcls;
 	size_t hpat, hpoff, hblk, hboff, hlen;
+	uint64_t hfault;		/* fault index of the run it was in (0: none) */
+	/* hits inside fault runs: blocks, runs, first / last fault index */
+	uint64_t fhits, fruns, fkfirst, fklast;
 } G;
+
+/* Index of the OpenSSL allocation refused in the current DH run (0 = none). */
+static volatile uint64_t g_fault;
+static volatile int g_faultop;
 
 /* At least `need` different byte values among p[0..n)? */
 static int
@@ -239,9 +256,57 @@ freehook(void * p, size_t n)
 			G.hblk = n;
 			G.hboff = h.boff;
 			G.hlen = h.len;
+			G.hfault = g_fault;
+		}
+		if (g_fault) {
+			G.fhits++;
+			if (G.fklast != g_fault || G.fruns == 0) {
+				G.fruns++;
+				if (G.fkfirst == 0)
+					G.fkfirst = g_fault;
+				G.fklast = g_fault;
+			}
 		}
 	}
 }
+
+/*
+ * A crash during a fault run: say which one, so that the sanitizer report /
+ * signal can be attributed to a fault index.
+ */
+static void
+crash_note(void)
+{
+	char buf[128];
+	int n;
+
+	if (g_fault == 0)
+		return;
+	n = snprintf(buf, sizeof(buf), "c20: crashed in DH op %c with OpenSSL "
+	    "allocation #%" PRIu64 " refused\n", g_faultop, (uint64_t)g_fault);
+	if (n > 0 && write(2, buf, (size_t)n) < 0)
+		return;
+}
+
+/* Called by the ASan run time before it prints a report. */
+void __asan_on_error(void);
+void
+__asan_on_error(void)
+{
+
+	crash_note();
+}
+
+#ifndef __SANITIZE_ADDRESS__
+static void
+crash_signal(int sig)
+{
+
+	crash_note();
+	signal(sig, SIG_DFL);
+	raise(sig);
+}
+#endif
 
 /*
  * free() is a builtin the compiler knows not to touch global state, so
@@ -264,8 +329,9 @@ report_scan(void)
 	    " ctrl=%" PRIu64 " hits=%" PRIu64, G.frees, G.bytes, npats, nwins,
 	    nskipped, G.ctrl_hits, G.hits);
 	if (G.hits)
-		printf(" hcls=%s hpat=%zu hpoff=%zu hblk=%zu hboff=%zu hlen=%zu",
-		    clsname[G.hcls], G.hpat, G.hpoff, G.hblk, G.hboff, G.hlen);
+		printf(" hcls=%s hpat=%zu hpoff=%zu hblk=%zu hboff=%zu hlen=%zu"
+		    " hfault=%" PRIu64, clsname[G.hcls], G.hpat, G.hpoff, G.hblk,
+		    G.hboff, G.hlen, G.hfault);
 	printf("\n");
 }
 
@@ -862,14 +928,61 @@ op_aesctr(struct vh_line * L)
 /* ------------------------------------------------------------------ */
 static int have_ossl_hook;
 
+struct dhjob {
+	int op;
+	uint8_t * pubx, * privx, * out;
+};
+
+/*
+ * One run of the operation with the entropy queue rewound and, if failk != 0,
+ * the failk-th allocation OpenSSL attempts during it refused.  The free-time
+ * scan is active.  *cnt = allocations OpenSSL attempted, *fired = refused.
+ */
+static int
+dh_run(struct dhjob * j, uint64_t failk, uint64_t * cnt, uint64_t * fired)
+{
+	int rc = 0;
+
+	Q.calls = 0;
+	memset(j->out, 0xEE, 256);
+	g_faultop = j->op;
+	g_fault = failk;
+	wa_ossl_reset_count();
+	wa_ossl_fail_at(failk);
+	switch (j->op) {
+	case 'G':
+		LIB(rc = crypto_dh_generate_pub(j->out, j->privx));
+		break;
+	case 'C':
+		LIB(rc = crypto_dh_compute(j->pubx, j->privx, j->out));
+		break;
+	case 'D':
+		LIB(rc = crypto_dh_generate(j->out, j->privx));
+		break;
+	}
+	wa_ossl_fail_at(0);
+	if (cnt != NULL)
+		*cnt = wa_ossl_count();
+	if (fired != NULL)
+		*fired = wa_ossl_nfailed();
+	g_fault = 0;
+	/* A failed OpenSSL call leaves entries in the thread's error queue. */
+	ERR_clear_error();
+	return (rc);
+}
+
+/* Upper bound on the allocations of one DH operation (observed: < 100). */
+#define DH_MAXALLOCS 5000
+
+/* base = index of the op's first argument token; fault: enumerate faults. */
 static void
-op_dh(struct vh_line * L, int op)
+op_dh(struct vh_line * L, int op, size_t base, int fault)
 {
 	uint8_t * pub = NULL, * priv = NULL;
-	size_t publen = 0, privlen = 0, t = 1;
+	size_t publen = 0, privlen = 0, t = base;
 	void * fpub = NULL, * fpriv = NULL, * fout;
-	uint8_t * pubx = NULL, * privx = NULL, * out;
 	const uint8_t * ctlpriv;
+	struct dhjob j;
 	int rc = 0;
 	BIGNUM * b;
 
@@ -878,22 +991,24 @@ op_dh(struct vh_line * L, int op)
 		return;
 	}
 	pats_reset();
+	memset(&j, 0, sizeof(j));
+	j.op = op;
 	if (op == 'C') {
 		pub = vh_tok_hex(L, t++, &publen);
 		if (publen != CRYPTO_DH_PUBLEN)
 			vh_die("bad pub length");
-		pubx = vh_exact(pub, publen, &fpub);
+		j.pubx = vh_exact(pub, publen, &fpub);
 	}
 	if (op != 'D') {
 		priv = vh_tok_hex(L, t++, &privlen);
 		if (privlen != CRYPTO_DH_PRIVLEN)
 			vh_die("bad priv length");
-		privx = vh_exact(priv, privlen, &fpriv);
+		j.privx = vh_exact(priv, privlen, &fpriv);
 	} else
-		privx = vh_exact(NULL, CRYPTO_DH_PRIVLEN, &fpriv);
+		j.privx = vh_exact(NULL, CRYPTO_DH_PRIVLEN, &fpriv);
 	parse_queue(vh_tok(L, t++));
 	parse_pats(vh_tok(L, t++), CLS_DH, 16);
-	out = vh_exact(NULL, 256, &fout);
+	j.out = vh_exact(NULL, 256, &fout);
 
 	/* Positive control: the private exponent as a bignum, freed WITHOUT
 	   clearing, by the driver.  The hook must report it. */
@@ -914,18 +1029,62 @@ op_dh(struct vh_line * L, int op)
 		}
 	}
 
-	switch (op) {
-	case 'G':
-		LIB(rc = crypto_dh_generate_pub(out, privx));
-		break;
-	case 'C':
-		LIB(rc = crypto_dh_compute(pubx, privx, out));
-		break;
-	case 'D':
-		LIB(rc = crypto_dh_generate(out, privx));
-		break;
+	if (!fault) {
+		rc = dh_run(&j, 0, NULL, NULL);
+		printf("R ret=%d ncalls=%zu", rc, Q.calls);
+	} else {
+		uint64_t n = 0, n2 = 0, k, cnt, fired;
+		uint64_t runs = 0, nfired = 0, notreached = 0, failret = 0;
+		uint64_t absorbed = 0, absdiff = 0, badret = 0;
+		uint8_t ref[256];
+		int r;
+
+		/*
+		 * Warm-up, so that what OpenSSL allocates once per process or
+		 * thread (error state, error strings, lock tables) is not
+		 * counted: one clean run and one failing run.
+		 */
+		(void)dh_run(&j, 0, NULL, NULL);
+		(void)dh_run(&j, 1, NULL, NULL);
+		/* Count run. */
+		rc = dh_run(&j, 0, &n, &fired);
+		memcpy(ref, j.out, 256);
+		if (n > DH_MAXALLOCS)
+			vh_die("DH op %c made %" PRIu64 " OpenSSL allocations", op, n);
+		/* Every allocation refused in turn. */
+		for (k = 1; k <= n; k++) {
+			r = dh_run(&j, k, &cnt, &fired);
+			runs++;
+			if (fired == 0) {
+				/* fewer allocations than in the count run */
+				notreached++;
+				if (r != rc)
+					badret++;
+				continue;
+			}
+			nfired++;
+			if (r == -1)
+				failret++;
+			else if (r == 0) {
+				/* OpenSSL coped with the refusal. */
+				absorbed++;
+				if (rc == 0 && memcmp(ref, j.out, 256))
+					absdiff++;
+			} else
+				badret++;
+		}
+		/* Is the count still the same in a clean run? */
+		r = dh_run(&j, 0, &n2, &fired);
+		if (r != rc)
+			badret++;
+		printf("R ret=%d ncalls=%zu n=%" PRIu64 " n2=%" PRIu64 " runs=%" PRIu64
+		    " fired=%" PRIu64 " notreached=%" PRIu64 " failret=%" PRIu64
+		    " absorbed=%" PRIu64 " absdiff=%" PRIu64 " badret=%" PRIu64
+		    " fhits=%" PRIu64 " fruns=%" PRIu64 " fkfirst=%" PRIu64
+		    " fklast=%" PRIu64, rc, Q.calls, n, n2, runs, nfired,
+		    notreached, failret, absorbed, absdiff, badret, G.fhits,
+		    G.fruns, G.fkfirst, G.fklast);
 	}
-	printf("R ret=%d ncalls=%zu", rc, Q.calls);
 	report_scan();
 	if (pub != NULL) {
 		free(fpub);
@@ -1008,6 +1167,13 @@ main(int argc, char ** argv)
 	/* Must precede every OpenSSL call. */
 	have_ossl_hook = (wa_hook_openssl() == 0);
 	wa_set_free_hook(freehook);
+#ifndef __SANITIZE_ADDRESS__
+	signal(SIGSEGV, crash_signal);
+	signal(SIGBUS, crash_signal);
+	signal(SIGABRT, crash_signal);
+	signal(SIGFPE, crash_signal);
+	signal(SIGILL, crash_signal);
+#endif
 	if (argc > 1)
 		scratch = argv[1];
 	vh_stdout_linebuf();
@@ -1033,7 +1199,13 @@ main(int argc, char ** argv)
 		case 'G':
 		case 'C':
 		case 'D':
-			op_dh(&L, op[0]);
+			op_dh(&L, op[0], 1, 0);
+			break;
+		case 'F':
+			op = vh_tok(&L, 1);
+			if (op[0] != 'G' && op[0] != 'C' && op[0] != 'D')
+				vh_die("bad F op %s", op);
+			op_dh(&L, op[0], 2, 1);
 			break;
 		case 'W':
 			op_readkeys(&L);
